@@ -143,7 +143,7 @@ class RefsWorld:
                 after_reject = 2
             else:
                 k = weighted(rng, [('src', 8), ('link', 5), ('plain', 2.5), ('update1', 1), ('uctx_open', 1), ('uctx_close', 1.2), ('ctor', 0.6),
-                                   ('drain', 1.5), ('step', 2), ('reent_over', 0.8)])
+                                   ('drain', 1.5), ('step', 2), ('reent_over', 0.8), ('trigger', 0.8)])
             t = rng.randrange(3)
             pn = rng.choice(TPARAMS[:4])
             if k == 'src':
@@ -192,6 +192,8 @@ class RefsWorld:
                     ref = {'k': 'param', 's': ref['s'], 'p': 'x'}
                 ops.append({'op': 'src', 's': ref['s'], 'p': ref.get('p', 'x'), 'v': rng.randint(11, 15), 'quiet': True})
                 ops.append({'op': 'link', 't': t, 'p': pn, 'ref': ref})
+            elif k == 'trigger':
+                ops.append({'op': 'trigger', 't': t, 'p': pn})
             elif k == 'reent_over':
                 ops.append({'op': 'reent', 't': t, 'p': rng.choice(['a', 'b']), 'i': rng.randrange(2), 'v': rng.randint(0, 5), 'how': 'override',
                             'bs': 0, 'bp': 'x'})
@@ -581,6 +583,19 @@ class _Run:
         t = self.tgt[ti]
         if k == 'reent':
             self.reentrant(op, ti, t)
+            return
+        if k == 'trigger':
+            # param.trigger re-announces the current value: no assignment by the user, a linked parameter stays linked
+            pn = op['p']
+            if (ti, pn) in self.pending:
+                return
+            try:
+                t.param.trigger(pn)
+            except Exception as e:      # noqa
+                self.viol('C08.exception', f"trigger of T{ti}.{pn} raised {type(e).__name__}: {str(e)[:120]}")
+            if pn in self.links[ti]:
+                self.out.stats['probe.trigger_on_linked_parameter'] += 1
+                self.relinked = True
             return
         if k == 'batch_reject':
             # a rejected update in the middle of batch_call_watchers: the batch goes on deferring as before the attempt
